@@ -1,3 +1,8 @@
 package main
 
-func extractRest6(l *loaded, genDir, jsonDir string) error { return nil }
+func extractRest6(l *loaded, genDir, jsonDir string) error {
+	if err := emitUnicodeLean(genDir); err != nil {
+		return err
+	}
+	return extractRest7(l, genDir, jsonDir)
+}
